@@ -40,7 +40,7 @@ func init() {
 		Old: "if !o.KeepWhitespace && next.TokenType == xml.TextToken && parse.IsAllWhitespace(next.Data) {", New: "if next.TokenType == xml.TextToken && parse.IsAllWhitespace(next.Data) {",
 		Rule: "R06.3", Construct: "whitespace-only text"})
 	mutant(&Mutant{Name: "c06-attr-entities-not-reescaped", Property: "C06", File: "xml/xml.go",
-		Old: "val = parse.ReplaceEntities(val, EntitiesMap, TextRevEntitiesMap)", New: "val = parse.ReplaceEntities(val, EntitiesMap, nil)",
+		Old: "val = parse.ReplaceEntities(val, EntitiesMap, AttrRevEntitiesMap)", New: "val = parse.ReplaceEntities(val, EntitiesMap, nil)",
 		Rule: "R06.4", Construct: "ReplaceEntities(val)"})
 	mutant(&Mutant{Name: "c06-doctype-collapsed", Property: "C06", File: "xml/xml.go",
 		Old: "\t\tcase xml.DOCTYPEToken:\n\t\t\tw.Write(t.Data)\n", New: "\t\tcase xml.DOCTYPEToken:\n\t\t\tw.Write(parse.ReplaceMultipleWhitespace(t.Data))\n",
@@ -52,7 +52,7 @@ func init() {
 		Old: "\t\t\tomitSpace = len(t.Text) > 0 && parse.IsWhitespace(t.Text[len(t.Text)-1]) // the next text follows this data, not the tag before it\n", New: "\t\t\tif len(t.Text) > 0 && parse.IsWhitespace(t.Text[len(t.Text)-1]) {\n\t\t\t\tomitSpace = true\n\t\t\t}\n",
 		Rule: "R06.6", Construct: "case xml.CDATAToken"})
 	mutant(&Mutant{Name: "c06-pi-words-get-equals", Property: "C06", File: "xml/xml.go",
-		Old: "\t\t\tif inPI && len(t.AttrVal) == 0 {\n\t\t\t\tbreak // a word of the processing instruction's content, not an attribute\n\t\t\t}\n", New: "",
+		Old: "\t\t\tif inPI && len(t.AttrVal) == 0 {\n", New: "\t\t\tif inPI && len(t.AttrVal) == 0 && len(t.Text) == 0 {\n",
 		Rule: "R06.7", Construct: "not written for a value-less word"})
 	mutant(&Mutant{Name: "c06-pi-flag-never-cleared", Property: "C06", File: "xml/xml.go",
 		Old: "\t\t\tw.Write(t.Data)\n\t\t\tinPI = false\n", New: "\t\t\tw.Write(t.Data)\n",
